@@ -62,6 +62,11 @@ if fid == 'F-19':
 if fid == 'F-37':
     text, errs, _ = apply_ops(w['doc'], w['ops'])
     out(errs == [None] and not text.lstrip().startswith('let'), 'emitted %r' % text)
+if fid in ('F-02', 'F-04'):
+    from render_oracles import judge
+    r = parse(w['input']).rebuild()
+    v = judge(prop, w['input'], r, lambda t: parse(t).rebuild())
+    out(v is not None, '%s: %r -> %r' % (v, w['input'], r))
 if fid == 'F-33':
     r = parse(w['input']).rebuild()
     out(r != w['input'], 'rebuilt %r' % r)
